@@ -26,7 +26,7 @@ use std::cell::RefCell;
 use std::collections::HashMap;
 use std::rc::Rc;
 
-type R<'a> = EndianSlice<'a, LittleEndian>;
+pub(crate) type R<'a> = EndianSlice<'a, LittleEndian>;
 
 #[derive(Clone, Debug)]
 struct Site {
@@ -73,9 +73,9 @@ fn parse_forest(b: &[u8]) -> Forest {
 
 // ---------------------------------------------------------------- writer with symbol support
 #[derive(Clone, Debug)]
-struct SymVec(w::EndianVec<LittleEndian>);
+pub(crate) struct SymVec(w::EndianVec<LittleEndian>);
 impl SymVec {
-    fn new() -> Self {
+    pub(crate) fn new() -> Self {
         SymVec(w::EndianVec::new(LittleEndian))
     }
 }
@@ -99,9 +99,9 @@ impl w::Writer for SymVec {
     }
 }
 
-type Secs = HashMap<SectionId, Vec<u8>>;
+pub(crate) type Secs = HashMap<SectionId, Vec<u8>>;
 
-fn take_sections(sections: &w::Sections<SymVec>) -> Secs {
+pub(crate) fn take_sections(sections: &w::Sections<SymVec>) -> Secs {
     let mut m = Secs::new();
     let _ = sections.for_each(|id, data: &SymVec| -> Result<(), ()> {
         m.insert(id, data.0.slice().to_vec());
@@ -110,7 +110,7 @@ fn take_sections(sections: &w::Sections<SymVec>) -> Secs {
     m
 }
 
-fn load<'a>(secs: &'a Secs) -> read::Dwarf<R<'a>> {
+pub(crate) fn load<'a>(secs: &'a Secs) -> read::Dwarf<R<'a>> {
     static EMPTY: [u8; 0] = [];
     read::Dwarf::load(|id| -> Result<R<'a>, ()> {
         Ok(EndianSlice::new(secs.get(&id).map(|v| &v[..]).unwrap_or(&EMPTY[..]), LittleEndian))
@@ -442,7 +442,7 @@ fn build_input_with(ver: u16, fmt: Format, asz: u8, forest: &Forest, layout: Opt
     Ok(Input { secs })
 }
 
-fn parse_ident(s: &[u8]) -> Option<usize> {
+pub(crate) fn parse_ident(s: &[u8]) -> Option<usize> {
     if s.len() >= 2 && s[0] == b'e' {
         std::str::from_utf8(&s[1..]).ok()?.parse::<usize>().ok()
     } else {
@@ -452,18 +452,20 @@ fn parse_ident(s: &[u8]) -> Option<usize> {
 
 // ---------------------------------------------------------------- dump of a DWARF image
 #[derive(Clone, Debug, PartialEq)]
-struct DEnt {
-    parent: String,
-    attrs: Vec<String>,
+pub(crate) struct DEnt {
+    pub(crate) parent: String,
+    pub(crate) attrs: Vec<String>,
+    // per attribute (DW_AT_name / DW_AT_sibling skipped): name, numeric body (0 if none), names of the DIEs it references
+    pub(crate) refs: Vec<(u16, u64, Vec<String>)>,
 }
-struct Dump {
-    order: Vec<String>,            // names in section order
-    ents: HashMap<String, DEnt>,   // e<k> / root<j>
-    dangling: Option<String>,
-    dup: bool,
+pub(crate) struct Dump {
+    pub(crate) order: Vec<String>,            // names in section order
+    pub(crate) ents: HashMap<String, DEnt>,   // e<k> / root<j>
+    pub(crate) dangling: Option<String>,
+    pub(crate) dup: bool,
 }
 
-fn ent_name<'a>(unit: read::UnitRef<'_, R<'a>>, e: &read::DebuggingInformationEntry<R<'a>>) -> String {
+pub(crate) fn ent_name<'a>(unit: read::UnitRef<'_, R<'a>>, e: &read::DebuggingInformationEntry<R<'a>>) -> String {
     match e.attr_value(c::DW_AT_name) {
         Some(v) => match unit.attr_string(v) {
             Ok(s) => String::from_utf8_lossy(s.slice()).into_owned(),
@@ -475,12 +477,17 @@ fn ent_name<'a>(unit: read::UnitRef<'_, R<'a>>, e: &read::DebuggingInformationEn
 
 struct Names {
     by_off: HashMap<usize, String>,
+    log: RefCell<Vec<String>>,
 }
 impl Names {
     fn get(&self, off: usize, dangling: &mut Option<String>, what: &str) -> String {
         match self.by_off.get(&off) {
-            Some(n) => n.clone(),
+            Some(n) => {
+                self.log.borrow_mut().push(n.clone());
+                n.clone()
+            }
             None => {
+                self.log.borrow_mut().push("dangling".to_string());
                 if dangling.is_none() {
                     *dangling = Some(what.to_string());
                 }
@@ -609,11 +616,11 @@ fn fmt_loclist<'a>(
     out
 }
 
-fn dump(secs: &Secs) -> Result<Dump, String> {
+pub(crate) fn dump(secs: &Secs) -> Result<Dump, String> {
     let dw = load(secs);
     let rd = |e: gimli::Error| format!("readback-{}", errname(&e));
     // pass 1: names by section offset
-    let mut names = Names { by_off: HashMap::new() };
+    let mut names = Names { by_off: HashMap::new(), log: RefCell::new(Vec::new()) };
     let mut order = Vec::new();
     let mut dup = false;
     let mut units = Vec::new();
@@ -663,12 +670,23 @@ fn dump(secs: &Secs) -> Result<Dump, String> {
                 stack.push((e.depth, n.clone()));
             }
             let mut attrs = Vec::new();
+            let mut refs = Vec::new();
             for a in &e.attrs {
                 // DW_AT_sibling is structure, not a dependency: it points just behind the subtree (often at a null
                 // entry), the writer recomputes it, and C11 checks its value
                 if a.name() == c::DW_AT_name || a.name() == c::DW_AT_sibling {
                     continue;
                 }
+                names.log.borrow_mut().clear();
+                let body = match a.value() {
+                    read::AttributeValue::Data1(v) => v as u64,
+                    read::AttributeValue::Data2(v) => v as u64,
+                    read::AttributeValue::Data4(v) => v as u64,
+                    read::AttributeValue::Data8(v) => v,
+                    read::AttributeValue::Udata(v) => v,
+                    read::AttributeValue::Sdata(v) => v as u64,
+                    _ => 0,
+                };
                 let v = match a.value() {
                     read::AttributeValue::UnitRef(o) => format!("ref:{}", names.get(uoff + o.0, &mut dangling, "attribute")),
                     read::AttributeValue::DebugInfoRef(o) => format!("ref:{}", names.get(o.0, &mut dangling, "attribute")),
@@ -682,30 +700,31 @@ fn dump(secs: &Secs) -> Result<Dump, String> {
                     other => format!("{:?}", other).replace(' ', ""),
                 };
                 attrs.push(format!("{:#x}={}", a.name().0, v));
+                refs.push((a.name().0, body, names.log.borrow().clone()));
             }
-            ents.insert(n, DEnt { parent, attrs });
+            ents.insert(n, DEnt { parent, attrs, refs });
         }
     }
     Ok(Dump { order, ents, dangling, dup })
 }
 
 // ---------------------------------------------------------------- conversions
-fn addr(a: u64) -> Option<w::Address> {
+pub(crate) fn addr(a: u64) -> Option<w::Address> {
     Some(w::Address::Constant(a))
 }
 
-fn write_out(dwarf: &mut w::Dwarf) -> Result<Secs, w::Error> {
+pub(crate) fn write_out(dwarf: &mut w::Dwarf) -> Result<Secs, w::Error> {
     let mut sections = w::Sections::new(SymVec::new());
     dwarf.write(&mut sections)?;
     Ok(take_sections(&sections))
 }
 
-struct Unfiltered {
+pub(crate) struct Unfiltered {
     // Err(variant name) when Dwarf::from or the write fails
-    dump: Result<Dump, String>,
+    pub(crate) dump: Result<Dump, String>,
 }
 
-fn unfiltered(input: &Secs) -> Unfiltered {
+pub(crate) fn unfiltered(input: &Secs) -> Unfiltered {
     let dw = load(input);
     let dump = match w::Dwarf::from(&dw, &addr) {
         Err(e) => Err(format!("convert {}", errname(&e))),
@@ -717,7 +736,7 @@ fn unfiltered(input: &Secs) -> Unfiltered {
     Unfiltered { dump }
 }
 
-fn convert_error_name(e: &w::ConvertError) -> String {
+pub(crate) fn convert_error_name(e: &w::ConvertError) -> String {
     // ConvertError::Read(inner) / Write(inner) are flattened to the inner variant
     let s = format!("{:?}", e);
     if let Some(rest) = s.strip_prefix("Read(").or_else(|| s.strip_prefix("Write(")) {
